@@ -138,8 +138,7 @@ func analyseOp(schema *ast.Schema, doc *ast.QueryDocument, op *ast.OperationDefi
 }
 
 type dataFacts struct {
-	HashInID     bool
-	NullObjElems bool
+	HashInID bool
 }
 
 func analyseData(d *fed.Data) dataFacts {
@@ -147,48 +146,6 @@ func analyseData(d *fed.Data) dataFacts {
 	for id := range d.Entities {
 		if strings.Contains(id, "#") {
 			f.HashInID = true
-		}
-	}
-	var walk func(v fed.Val)
-	walk = func(v fed.Val) {
-		switch v.Kind {
-		case "list":
-			hasObj, hasNull := false, false
-			for _, e := range v.List {
-				if e.Kind == "ref" || e.Kind == "obj" {
-					hasObj = true
-				}
-				if e.Kind == "null" {
-					hasNull = true
-				}
-				walk(e)
-			}
-			if hasNull && (hasObj || true) {
-				// a null inside a list whose other elements are objects (or which is typed as a list of objects)
-				for _, e := range v.List {
-					if e.Kind == "ref" || e.Kind == "obj" {
-						f.NullObjElems = true
-					}
-				}
-				if !hasObj && len(v.List) > 0 {
-					// all-null lists of an object type cannot be told from scalar lists here; be generous
-					f.NullObjElems = true
-				}
-			}
-		case "obj":
-			for _, x := range v.Obj.Fields {
-				walk(x)
-			}
-		}
-	}
-	for _, e := range d.Entities {
-		for _, x := range e.Fields {
-			walk(x)
-		}
-	}
-	for _, r := range d.Roots {
-		for _, x := range r {
-			walk(x)
 		}
 	}
 	return f
@@ -247,7 +204,6 @@ var c01Classes = []c01ClassDef{
 	{"node-root-fragment", func(o opFacts, d dataFacts, sh bool) bool { return o.NodeRoot }, []string{"invalid-subrequest/unknown-field", "error/internal-service-url", "wrong-data", "error/missing-id"}},
 	{"abstract-type-selection", func(o opFacts, d dataFacts, sh bool) bool { return o.Abstract }, []string{"invalid-subrequest/unknown-field", "wrong-data", "error/missing-id"}},
 	{"variable-named-id", func(o opFacts, d dataFacts, sh bool) bool { return o.VarNamedID }, []string{"invalid-subrequest/other", "wrong-data", "invalid-subrequest/undefined-variable"}},
-	{"null-in-object-list", func(o opFacts, d dataFacts, sh bool) bool { return d.NullObjElems }, []string{"error/null-list-entry", "wrong-data"}},
 }
 
 func classify(o opFacts, d dataFacts, shadow bool, mode string) string {
